@@ -78,6 +78,19 @@ func c10HandlerChild(args []string) int {
 				}
 			}
 		}
+		if strings.Contains(in.Class, "cat-until-done") {
+			// let the whole file pass through the pipeline: the session ends by
+			// itself (close handshake) once the result was handed over
+			for w := 0; w < 120; w++ {
+				time.Sleep(100 * time.Millisecond)
+				omu.Lock()
+				seen := bytes.Contains(out.Bytes(), []byte(".syn close")) || bytes.Contains(out.Bytes(), []byte("ERROR"))
+				omu.Unlock()
+				if seen {
+					break
+				}
+			}
+		}
 		h.Shutdown()
 		close(stop)
 		select {
